@@ -372,18 +372,19 @@ def tempering_part(ck, tier):
     more than 50 exchange cycles with a remainder, and the default interval"""
     from harness import c08
     a = dict(temps=[1, 4], starts=[[-3], [4]], kind="gibbs", display=False, seed=seed() + 41, delays=[0.0, 0.0], jitter=0,
-             prog=[["advance", 7, 10], ["return"], ["advance", 161, 3], ["return"], ["advance", 23, 5], ["return"], ["shutdown"]])
+             prog=[["advance", 7, 10], ["return"], ["advance", 161, 3], ["return"], ["advance", 23, 5], ["return"],
+                   ["advance", 250, 5], ["return"], ["advance", 101, 2], ["return"], ["advance", 200, 2], ["return"], ["shutdown"]])       # exactly 50 cycles (+ 1 step), 100 cycles
     sc = c08.run_scenario(a)
     ck.case(("pt-advance",))
     if sc["hung"] or sc["result"] is None or sc["result"]["error"]:
         ck.violation("ParallelTempering run failed", {"error": (sc["result"] or {}).get("error"), "stdout": sc["stdout"][-300:]}, site="ParallelTempering.advance")
         return
-    want = [1 + 7, 1 + 7 + 161, 1 + 7 + 161 + 23]
+    want = [1 + 7, 1 + 7 + 161, 1 + 7 + 161 + 23, 192 + 250, 442 + 101, 543 + 200]
     got = [[c["n"] for c in ret] for ret in sc["result"]["returned"]]
     lens = [[len(c["sample"]) for c in ret] for ret in sc["result"]["returned"]]
     if got != [[w, w] for w in want] or lens != got:
         ck.violation("ParallelTempering.advance(n, swap_interval) appends exactly n samples to every chain (reported length = stored samples)",
-                     {"calls": ["advance(7, 10)", "advance(161, 3)", "advance(23, 5)"], "want_lengths": want, "reported_lengths": got, "stored_samples": lens},
+                     {"calls": ["advance(7, 10)", "advance(161, 3)", "advance(23, 5)", "advance(250, 5)", "advance(101, 2)", "advance(200, 2)"], "want_lengths": want, "reported_lengths": got, "stored_samples": lens},
                      site="ParallelTempering.advance")
 
 
